@@ -8,7 +8,7 @@
    fixes/C29_gc_deleted_flag.patch, `lrun false` the Limiter as found. *)
 From Coq Require Import List NArith Bool.
 From K.Model Require Import C29.
-From K.Proof Require C29 C29_rc C29_chk.
+From K.Proof Require C29 C29_rc C29_chk C29_cnt.
 Import ListNotations.
 Local Open Scope N_scope.
 
@@ -131,6 +131,14 @@ Print Assumptions C29_rc_busy_leaves_nothing.
 Theorem C29_rc_workers_bounded : forall cf ls, r_used (rrun cf rinit ls) <= c_workers cf.
 Proof. exact Proof.C29_rc.rc_workers_bounded. Qed.
 Print Assumptions C29_rc_workers_bounded.
+
+(* the requests holding a worker (executing, or finished and about to release it) are exactly as
+   many as workers taken, hence never more than NumWorkers *)
+Theorem C29_rc_inflight_bounded : forall cf ls,
+  let s := rrun cf rinit ls in
+  inflight s = r_used s /\ inflight s <= c_workers cf.
+Proof. exact Proof.C29_cnt.rc_inflight_bounded. Qed.
+Print Assumptions C29_rc_inflight_bounded.
 
 (* ---------------- IntervalTrap ---------------- *)
 
